@@ -87,6 +87,7 @@ def response_spec(draw: Any, small: bool = False) -> Dict[str, Any]:
         # the shape in which the application hands over its header list (an Iterable)
         "headers_as": draw(st.sampled_from(["list", "list", "tuple", "lists", "iter", "generator",
                                             "map"])),
+        "body_as": draw(st.sampled_from(["bytes", "bytes", "bytearray", "memoryview"])),
     }
 
 
@@ -164,7 +165,8 @@ def app_program(req: Dict[str, Any]) -> list:
     prog.append(["start_with_trailers", start, bool(spec["trailers"])])
     for c in spec["chunks"]:
         prog.append(["send", {"type": "http.response.body",
-                              "body": b2s(make_body(c["len"], c["seed"])), "more_body": True}])
+                              "body": b2s(make_body(c["len"], c["seed"])), "more_body": True,
+                              "$body_as": spec.get("body_as", "bytes")}])
     prog.append(["send", {"type": "http.response.body", "body": "", "more_body": False}])
     if spec["trailers"]:
         prog.append(["send_if_ext", "http.response.trailers",
